@@ -428,6 +428,7 @@ def rule_OR2_responder(ctx, tier):
         else:
             rr.fail("fbc:completed-not-deleted", "completed trackers are not handed to delete_appointments on every path", where=f.line_of(sw))
     ext = sites(f, "std::iter::Extend::extend") + sites_containing(f, "Extend", "extend")
+    tgt_all_refund = {d for d in dels if has_call(arg_origin(ctx, f, d, 1), "Responder::check_confirmations")}
     from .rulekit import reach_without_edges
     empty_true = set(switch_succ_with(ctx, f, "truth", True, "is_empty"))
     rets = f.return_blocks()
@@ -446,7 +447,16 @@ def rule_OR2_responder(ctx, tier):
             leak = [x for x in xs if any(reach_without_edges(f, s0, r_, cut, stop=lambda q: q in direct) for s0 in f.succ(x) for r_ in rets)]
             val_ok = bool(xs) and not leak
         if acc_ok:
-            rr.ok("%s rejected -> trackers_to_delete (accumulated)" % short)
+            # ... and what was accumulated is handed to the no-refund delete on every path, unless the list was found empty
+            from .rulekit import reaches_unless
+            nr = [d for d in dels if d not in tgt_all_refund]
+
+            def list_empty(facts):
+                return any(f_[0] == "truth" and f_[2] is True and has_call(f_[1], "is_empty") for f_ in facts)
+            if nr and all(reaches_unless(ctx, f, f.succ(e), nr, rets, list_empty) for e in ext_t):
+                rr.ok("%s rejected -> trackers_to_delete (accumulated) -> delete_appointments(.., false)" % short)
+            else:
+                rr.fail("fbc:%s-rejected-not-deleted" % short, "the trackers %s reported as rejected are accumulated but a path to the end of filtered_block_connected skips the no-refund delete although the list is not known to be empty: rejected trackers (and their appointments) stay in the database and are re-sent on every block" % short, where=f.line_of(ext_t[0]))
         elif val_ok:
             rr.ok("%s rejected -> argument of the no-refund delete" % short)
         elif es or direct:
@@ -982,7 +992,32 @@ def rule_EF3(ctx, tier):
             rr.ok("get_last_n_blocks(n = IRREVOCABLY_RESOLVED)")
         else:
             rr.fail("bootstrap-window", "bootstrap fetches `%s` blocks, not IRREVOCABLY_RESOLVED" % og.show(a), where=m.line_of(bb))
-    # the newest block is element 0 of last_n_blocks (so [0..6] are the most recent six): get_last_n_blocks pushes tip first
+    # the newest block is element 0 of last_n_blocks (so [0..6] are the most recent six): get_last_n_blocks pushes tip first.
+    # Every turn of its 0..n loop that does not fail pushes the block it fetched onto the vector it returns: the size of both
+    # caches is the number of blocks handed over at start-up, for good.
+    gl = None
+    for bid in P.family("teosd::get_last_n_blocks") if "teosd::get_last_n_blocks" in P.bodies else []:
+        if sites_containing(P.bodies[bid], "Poll", "fetch_block"):
+            gl = P.bodies[bid]
+    if gl is None:
+        rr.anchor_missing("teosd::get_last_n_blocks")
+    else:
+        from .rulekit import is_iter_next, always_reaches
+        nx = [bb for bb in gl.rpo() if is_iter_next(gl, bb) and "ops::Range" in (call_target(gl.term(bb)) or "")]
+        pushes = [bb for bb, t in gl.calls() if (call_target(t) or "").endswith("Vec::<T, A>::push") and has_call(arg_origin(ctx, gl, bb, 1), "fetch_block")]
+        fetches = sites_containing(gl, "Poll", "fetch_block")
+        ret = og.show(ctx.og.local(gl, 0))
+        same_vec = bool(pushes) and all(og.show(arg_origin(ctx, gl, p_, 0)) in ret for p_ in pushes)
+        errs = {bb for bb, t in gl.calls() if (call_target(t) or "").endswith("::from_residual")}
+        if len(nx) == 1 and fetches and pushes and same_vec and all(always_reaches(gl, gl.succ(f_), set(pushes) | errs, lambda x: x in nx) for f_ in fetches):
+            rr.ok("get_last_n_blocks: every fetched block is pushed onto the returned vector before the next turn")
+        else:
+            rr.fail("bootstrap-blocks-dropped", "get_last_n_blocks can fetch a block and go to the next turn (or return) without pushing it onto the vector it returns: the Watcher's cache and the Responder's index are sized by the number of blocks handed over at start-up, so they start — and stay — shorter than 6 / 100 blocks", where=gl.line_of(fetches[0]) if fetches else gl.span)
+        first = og.show(arg_origin(ctx, gl, fetches[0], 1)) if fetches else ""
+        if "param#2@get_last_n_blocks" in first:
+            rr.ok("get_last_n_blocks starts from the tip it is given (element 0 is the newest block)")
+        else:
+            rr.fail("bootstrap-order", "the first block fetched by get_last_n_blocks is `%s`, not the tip it was given" % first[:100], where=gl.span)
     n = 0
     for b in P.bodies.values():
         for bb in sites(b, "teos_common::appointment::compute_appointment_slots"):
